@@ -473,8 +473,86 @@ def _run_notify(case):
 
 # ---------------------------------------------------------------------------
 
+def _run_live(case):
+  """a snapshot-then-wait watcher on a RUNNING phase: after the phase's last assignment (and its notification) the
+  watcher is given the time to wake up and take its snapshot; that snapshot must show the values the measurements now
+  have - a watcher that was notified but handed a stale snapshot has missed the change. Source lines of the rendering
+  functions are scheduling points."""
+  import threading
+  import openhtf as htf
+  from harness import sched_exec
+  from openhtf.core import test_state, measurements
+  sched_exec.install(False)
+  names = ['a', 'b', 'c'][:case.get('nmeas', 2)]
+  facts = []
+  box = {'snaps': 0}
+
+  @htf.measures(*[htf.Measurement(n) for n in names])
+  def phase(test):
+    for op in case['ops']:
+      setattr(test.measurements, names[op[0] % len(names)], op[1])
+    # quiet from here on: wait until the watcher has taken a snapshot after the last notification
+    n0 = box['snaps']
+    box['quiet'].set()
+    box['caught_up'].wait(30)
+    want = {n: test.measurements._measurements[n].measured_value.value for n in names
+            if test.measurements._measurements[n].measured_value.is_value_set}
+    last = box.get('last') or {}
+    rps = (last.get('running_phase_state') or {}).get('measurements') or {}
+    for n, v in want.items():
+      if (rps.get(n) or {}).get('measured_value', '<missing>') != v:
+        facts.append('X:watcher-snapshot-misses-the-current-value-of:' + n)
+  test = htf.Test(phase)
+  test.configure(name='c18live')
+
+  def watcher():
+    s = sched.SCHED
+    s.block(lambda: getattr(getattr(test, '_executor', None), 'test_state', None) is not None or box.get('over'), None,
+            'wait-for-state')
+    ts = getattr(getattr(test, '_executor', None), 'test_state', None)
+    if ts is None:
+      return
+    after_quiet = 0
+    while True:
+      was_quiet = box['quiet'].flag
+      state, ev = ts.asdict_with_event()
+      box['last'] = state
+      box['snaps'] += 1
+      if was_quiet:
+        after_quiet += 1
+        box['caught_up'].set()
+      if state.get('status') == 'COMPLETED':
+        return
+      ev.wait()
+
+  def body(s):
+    box['quiet'] = sched.CoEvent()
+    box['caught_up'] = sched.CoEvent()
+    w = threading.Thread(target=watcher, name='watcher')
+    w._cosched_name = 'watcher'
+    w.start()
+    try:
+      test.execute()
+    finally:
+      box['over'] = True
+      box['caught_up'].set()
+    w.join()
+    return True
+  codes = sched.codes_of(test_state.PhaseState.as_base_types, measurements.Measurement.as_base_types,
+                         test_state.PhaseState._notify)
+  rng = common.Rng('c18l/%s' % case['rseed'])
+  choose = sched.pct_chooser(rng, case.get('pct', 3), case.get('horizon', 400)) if case.get('pct') else \
+      sched.random_chooser(rng, case.get('switch', 0.3))
+  rbox, s = sched.run(choose, body, max_steps=300000, trace_lines=codes)
+  if s.deadlock or 'sched_error' in rbox:
+    facts.append('X:deadlock-or-stuck')
+  return {'toks': [], 'n': 0, 'per': {}, 'final': None, 'extras': facts, 'steps': s.step, 'live': True}
+
+
 def run_real(case):
   k = case['kind']
+  if k == 'live':
+    return _run_live(case)
   if k == 'bare':
     return _run_bare(case)
   if k == 'test':
@@ -506,6 +584,8 @@ def classify(case, o):
 def nontrivial_key(case, o):
   if case['kind'] == 'notify':
     return None if not o['obs'] else json.dumps(case, sort_keys=True)
+  if case['kind'] == 'live':
+    return json.dumps(case, sort_keys=True)
   return ' '.join(o['toks']) + '|' + case['kind'] + str(case.get('wmode')) if (o['toks'] or case['kind'] == 'plug') else None
 
 
@@ -557,6 +637,11 @@ def gen_cases(rng, tier):
       t.pop('start', None)
     cases.append({'kind': 'test', 'test': t, 'nW': r.choice([1, 2]), 'rseed': r.getrandbits(32),
                   'switch': r.choice([0.1, 0.3, 0.6]), 'logging': i % 2 == 0})
+  for i in range(150 if quick else 3000):
+    r = rng.derive('l%d' % i)
+    cases.append({'kind': 'live', 'nmeas': r.choice([2, 3]), 'ops': [[r.randrange(3), r.choice([1, 5, 7])] for _ in range(r.choice([2, 3, 4]))],
+                  'rseed': r.getrandbits(32), 'pct': r.choice([0, 2, 3, 3]), 'horizon': r.choice([200, 500]),
+                  'switch': r.choice([0.2, 0.5])})
   for i in range(20 if quick else 400):
     r = rng.derive('p%d' % i)
     cases.append({'kind': 'plug', 'prompts': r.choice([1, 2, 3]), 'rseed': r.getrandbits(32),
